@@ -277,7 +277,7 @@ fn flattened_if_else(
     match acc.e2.as_ref() {
       expr::IfElseOrBlock::IfElse(nested) => {
         chain.push(FlattenedIfElseChainElement {
-          comments: NO_COMMENT_REFERENCE,
+          comments: acc.common.associated_comments,
           condition: acc.condition.as_ref(),
           e1: acc.e1.as_ref(),
         });
